@@ -47,29 +47,29 @@ package utils
 
 //@ func (*ProxyWriter).WriteHeader
 //@   props C20
-//@   modifies everything
+//@   modifies external
 //@   ensures forwarded_once: calls(p.w.WriteHeader) == 1 && callarg(p.w.WriteHeader, 0, 0) == code
 //@   at_call p.w.WriteHeader remembered: p.code == code
 
 //@ func (*ProxyWriter).Write
 //@   props C20
-//@   modifies everything
+//@   modifies external
 //@   ensures forwarded_once: calls(p.w.Write) == 1 && callarg(p.w.Write, 0, 0) == buf && result0 == callres(p.w.Write, 0, 0) && result1 == callres(p.w.Write, 0, 1)
 //@   at_call p.w.Write counted: p.length == old(p.length) + len(buf)
 
 //@ func (*ProxyWriter).Header
 //@   props C20
-//@   modifies everything
+//@   modifies external
 //@   ensures same_header: calls(p.w.Header) == 1 && result == callres(p.w.Header, 0, 0)
 
 //@ func (*ProxyWriter).Flush
 //@   props C20
-//@   modifies everything
+//@   modifies external
 //@   ensures flush_forwarded_when_supported: calls(Flush) <= 1
 
 //@ func (*ProxyWriter).Hijack
 //@   props C20
-//@   modifies everything
+//@   modifies external
 //@   ensures hijack_forwarded_or_error: calls(Hijack) == 1 || result2 != nil
 
 // ---- C16: the default error handler maps failures to gateway statuses ----------------------------
@@ -80,7 +80,7 @@ package utils
 //@ func (*StdHandler).ServeHTTP
 //@   props C16 C20
 //@   requires w != nil && e != nil
-//@   modifies everything
+//@   modifies external
 //@   ensures one_status_then_body: calls(w.WriteHeader) == 1 && calls(w.Write) == 1 && before(w.WriteHeader, w.Write)
 //@   ensures timeout_is_504: implements(err, "net.Error") && callres(Timeout, 0, 0) ==> callarg(w.WriteHeader, 0, 0) == 504
 //@   ensures other_network_error_is_502: implements(err, "net.Error") && !callres(Timeout, 0, 0) ==> callarg(w.WriteHeader, 0, 0) == 502
